@@ -201,11 +201,12 @@ def native_judge(kind, mode, vects, n, data, rax, regs):
     return ((rax & 0xffffffff) == 0) != cons
 
 
-def raid_invalid(name, vects, n, ctx, img, exe):
+def raid_invalid(name, vects, n, ctx, img, exe, zext=False):
     """argument combinations outside the documented minimum: non-zero return and NO memory access
-    (nothing is mapped: any access is a violation)."""
+    (nothing is mapped: any access is a violation).  zext: a negative `int vects` arrives the way compiled C callers
+    pass it (32-bit register write => upper half of rdi zero), not sign-extended."""
     s = Setup(img, name)
-    s.args = [vects & bv.mask(64), n, 0x5000000]  # array pointer points to unmapped memory
+    s.args = [(vects & 0xffffffff) if zext else (vects & bv.mask(64)), n, 0x5000000]  # array pointer points to unmapped memory
     ex = Exec(img)
     finals = ex.run(s.initial_state())
     for st, out in finals:
@@ -241,6 +242,15 @@ def raid_query(qid, params, ctx):
             for k in agg:
                 agg[k] += r.get("stats", {}).get(k, 0)
             if r["status"] != HOLDS:
+                return r
+        # last (a finding here must not hide the cases above): negative vects as a compiled caller passes it
+        for vects, n in [(v, l) for v, l in params.get("invalid", []) if v < 0][:1]:
+            r = raid_invalid(name, vects, n, ctx, img, exe, zext=True)
+            if r["status"] != HOLDS:
+                r["finding_key"] = "negative-vects-zero-extended:%s" % name
+                r["detail"] = "negative vects passed as a 32-bit int (rdi = 0x%08x, upper half zero) is taken as a huge count: %s" % (vects & 0xffffffff, r.get("detail"))
+                r["stats"] = agg
+                r["validated_traces"] = val
                 return r
     except Unsupported as e:
         return {"status": ERROR, "detail": "outside encodable class: %s" % e}
